@@ -40,6 +40,8 @@ void restore_command_giver (void);
 
 object_t *load_object(const char *mudlib_filename, const char *pre_text);
 void reset_load_object_limits();
+int get_load_object_limits(void);
+void set_load_object_limits(int);
 object_t *clone_object(const char *, int);
 object_t *environment(svalue_t *);
 object_t *first_inventory(svalue_t *);
@@ -49,6 +51,8 @@ object_t *find_object_by_name(const char *);
 void move_object(object_t *, object_t *);
 void destruct_object(object_t *);
 void reset_destruct_object_limits();
+object_t *get_destruct_object_limits(void);
+void set_destruct_object_limits(object_t *);
 void destruct2(object_t *);
 void remove_destructed_objects(void);
 
